@@ -1,5 +1,5 @@
 """C06 -- tunnels are transparent: inner frames survive VXLAN/GRE/ERSPAN encapsulation."""
-import struct, random
+import os, struct, random
 import common, diff, gen, progs
 from diff import Case
 from gen import *
@@ -52,6 +52,46 @@ def inner_expr(r, g):
     return e, npk
 
 
+def corner_pairs(ctx, first):
+    """(a) inner frames so large that the outer IPv4 total length passes 65535 (every tunnel kind must still carry them
+    whole), (b) one session used for more than 2^16 packets (sequence numbers are 32 bits wide)"""
+    r = ctx.rng
+    out = []
+    i = first
+    sizes = [65457, 65458, 65470, 65507] if ctx.thorough else [65458, 65507]
+    for kind in ("vxlan", "gre", "erspan1", "erspan2"):
+        for n in sizes:
+            rr = random.Random(r.getrandbits(32))
+            s = Sess(rr, 0)
+            s.kind = kind
+            fn = "c06big%d.bin" % i
+            data = bytes(rr.getrandbits(8) for _ in range(n))
+            e = Call("ipv4::udp::unicast", SOCK("1.2.3.4:1"), SOCK("1.2.3.5:2"), _x=[Call("io::file", STR("@WD@/" + fn))])
+            head = [Import(m) for m in ("ipv4", "io", "vxlan", "gre", "erspan1", "erspan2", "eth")] + [s.decl()]
+            plan = [(1, [(s, 0, 0)])]
+            for tag, body in (("p", [Do(e)]), ("w", [Do(Call(s.name + ".encap", e))])):
+                c = Case()
+                c.name, c.stmts, c.files, c.text, c.meta = "%s%d" % (tag, i), head + body, {fn: data}, None, []
+                c.gen = {"kind": "plain" if tag == "p" else "wrapped", "plan": plan, "pair": i, "corner": "inner-frame-%d" % (n + 42)}
+                out.append(c)
+            i += 1
+    for kind in (("erspan2", "gre") if ctx.thorough else ("erspan2",)):
+        rr = random.Random(r.getrandbits(32))
+        s = Sess(rr, 0)
+        s.kind = kind
+        npk = 65540
+        head = [Import(m) for m in ("ipv4", "vxlan", "gre", "erspan1", "erspan2", "eth")] + [s.decl()] + \
+               [Let("q", Call("eth::frame", STR(b"\x02" * 6), STR(b"\x04" * 6), _x=[STR(b"xy")]))]
+        plan = [(1, [(s, 0, k)]) for k in range(npk)]
+        for tag, body in (("p", [Do(Ref("q"))] * npk), ("w", [Do(Call(s.name + ".encap", Ref("q")))] * npk)):
+            c = Case()
+            c.name, c.stmts, c.files, c.text, c.meta = "%s%d" % (tag, i), head + body, {}, None, []
+            c.gen = {"kind": "plain" if tag == "p" else "wrapped", "plan": plan, "pair": i, "corner": "long-session", "sample": True}
+            out.append(c)
+        i += 1
+    return out
+
+
 def run(ctx):
     r = ctx.rng
     cases = []
@@ -91,6 +131,9 @@ def run(ctx):
             c.name, c.stmts, c.files, c.text, c.meta = "%s%d" % (tag, i), head + body, {}, None, []
             c.gen = {"kind": "plain" if tag == "p" else "wrapped", "plan": plan, "pair": i}
             cases.append(c)
+    cases += corner_pairs(ctx, n)
+    from props.c02 import fix_paths
+    fix_paths([c for c in cases if c.files], common.BUILD + "/work/c06-%d" % os.getpid())
     diff.run_both(ctx, "c06", cases)
     byname = {c.name: c for c in cases}
     queries, owners = [], []
@@ -113,8 +156,12 @@ def run(ctx):
             ctx.fail("tunnel-count", "%d outer packets for %d inner packets" % (len(rw), len(rp)), diff.replay_of(c, {"plain_program": p.text}))
             continue
         idx = 0
-        for npk, layers in c.gen["plan"]:
+        nplan = len(c.gen["plan"])
+        for pi, (npk, layers) in enumerate(c.gen["plan"]):
             for j in range(npk):
+                if c.gen.get("sample") and not (pi < 3 or pi % 4099 == 0 or pi > 65530):
+                    idx += 1
+                    continue
                 outer, inner = rw[idx][4], rp[idx][4]
                 queries.append("peel " + outer.hex() + " " + " ".join(
                     "%s:%d:%d:%d:%d:%d:%d:%d" % (s.kind, 1 if s.raw else 0, s.pa, s.pb, s.vni, s.et, pix, cnt + j)
